@@ -47,7 +47,7 @@ import ast
 
 from .. import flow
 from ..cfg import cfg_of
-from ..linexpr import Env, Lin, NONE, Seq, fresh, local_edges, loop_heads, paths_from, run_steps, segments
+from ..linexpr import Env, Lin, NONE, Seq, atom_text, fresh, local_edges, loop_heads, paths_from, run_steps, segments
 from ..model import AnchorError, Func, UnknownIdiom, dotted, short, unparse
 from .c07_helpers import Verdicts, require_attrs
 from .common import strip_await, walk_self
@@ -2017,6 +2017,139 @@ def r12_size_cap(run):
     v.flush()
 
 
+# ---------------------------------------------------------------------------
+# R13 the cursor stays inside the buffer: 0 <= _buffer_pos <= _buffer_len is preserved by every acyclic path of every
+# method that stores the cursor / the buffer / its cached length (the side condition R1, R5, R6-R10 and R12 assume).
+# In particular a cursor stored after the buffer was REPLACED by freshly read data (whose length only the source decides)
+# must be clamped to / guarded by the new length (finding F20).
+# ---------------------------------------------------------------------------
+
+def _r13_method(run, v, rd, f, skipped):
+    p = run.project
+    cfg = cfg_of(f, p)
+    run.use_cfg(cfg)
+    what = '0 <= %s <= %s is preserved (the cursor never leaves the buffered data)' % (BPOS.split('.')[1], BLEN.split('.')[1])
+    src_methods = {n for n, g in rd.methods.items() if n != '__init__' and any(
+        isinstance(x, ast.Attribute) and dotted(x) == SOURCE_FN and isinstance(x.ctx, ast.Load) for x in walk_self(g.node))}
+
+    def check(env, at, wit=None):
+        pos, ln = env.eval(_E_BPOS), env.eval(_E_BLEN)
+        last = env.ghost.get('last', f.name)
+        if not (isinstance(pos, Lin) and isinstance(ln, Lin)):
+            v.unknown('%s: %s / %s is not a number %s' % (f.qual, BPOS, BLEN, at))
+            return
+        fresh_lens = {('len', a) for a in env.ghost.get('fresh_data', ())}
+        for lo, hi, text in ((Lin.const(0), pos, '0 <= %s' % BPOS), (pos, ln, '%s <= %s' % (BPOS, BLEN))):
+            d = hi - lo
+            if env.prove_le(lo, hi):
+                v.note(f, 'cursor in buffer', what, True, last)
+                continue
+            if d.tainted():
+                v.unknown('%s: %s %s: %s' % (f.qual, text, at, '; '.join(env.notes[-2:]) or repr(d)))
+                continue
+            # the bound rests on the length of data read from the source on this path, which only the source decides: no relation between
+            # parameters / earlier state that the callers establish can supply it
+            hinges = sorted(atom_text(a) for a, k in d.t.items() if a in fresh_lens and k > 0)
+            if hinges and not env.ghost.get('content_tested'):
+                v.note(f, 'cursor in buffer', what, False, last,
+                       '%s: %s is not provable %s (difference %r): the buffer holds freshly read data and nothing on this path relates the cursor to how '
+                       'much the source delivered (%s)' % (f.name, text, at, d, ', '.join(hinges)), wit,
+                       'a delimited sub-reader whose source ends early: _read() leaves _buffer_pos > _buffer_len, _normalize_size() goes negative, a nested '
+                       'delimit() gets a negative budget and read_until() on it never returns')
+                continue
+            skipped.add('%s: %s %s rests on a relation the callers / callees establish (%r)' % (f.qual, text, at, d))
+
+    def on_call(env, call):
+        fn = call.func
+        if isinstance(fn, ast.Attribute) and dotted(fn.value) == 'self' and fn.attr in rd.methods:
+            callee = rd.methods[fn.attr]
+            for a in list(call.args) + [k.value for k in call.keywords]:
+                env.eval(a.value if isinstance(a, ast.Starred) else a)
+            w = rd.writes(fn.attr) or set()
+            touches = bool({BUF, BLEN, BPOS} & (w | {dotted(n) for n in walk_self(callee.node) if isinstance(n, ast.Attribute) and dotted(n)}))
+            if touches:
+                check(env, 'when %s() is called' % fn.attr)
+            hv = [a for a in (BUF, BLEN, BPOS, BUDGET) if a in w]
+            if hv:
+                env.havoc(hv, 'after %s' % fn.attr)
+                nb = env.vars[BUF].lone() if BUF in env.vars and isinstance(env.vars[BUF], Lin) else None
+                if BUF in hv and nb is not None:
+                    env.kind[nb] = 'seq'
+                for a in (BLEN, BPOS, BUDGET):
+                    if a in hv:
+                        env.kind[env.vars[a].lone()] = 'int'
+                env.add_eq(env.eval(_E_BLEN), env.length(env.eval(_E_BUF), BUF))      # the callee preserves the invariants (its own obligation)
+                env.add_le(0, env.eval(_E_BPOS))
+                env.add_le(env.eval(_E_BPOS), env.eval(_E_BLEN))
+            r = fresh('result of ' + short(call, 30))
+            env.kind[r] = 'seq'
+            if fn.attr in src_methods:
+                env.ghost['fresh_data'] = env.ghost.get('fresh_data', frozenset()) | {r}
+            return Lin.atom(r)
+        return None
+
+    def on_node(env, n, label):
+        if label == 'exc':
+            return
+        if n.kind == 'test' and env.ghost.get('fresh_data'):
+            # a test on the CONTENT of the fresh data may justify a cursor position the linear facts cannot express
+            inside_len = {id(y) for x in n.walk() if isinstance(x, ast.Call) and isinstance(x.func, ast.Name) and x.func.id == 'len' for a in x.args for y in ast.walk(a)}
+            for x in n.walk():
+                if isinstance(x, (ast.Name, ast.Attribute)) and id(x) not in inside_len and dotted(x) is not None and isinstance(getattr(x, 'ctx', None), ast.Load):
+                    val = env.vars.get(dotted(x))
+                    if isinstance(val, Lin) and val.lone() in env.ghost['fresh_data']:
+                        env.ghost['content_tested'] = True
+        if n.kind == 'stmt' and any(isinstance(x, (ast.Yield, ast.YieldFrom)) for x in n.walk()):
+            check(env, 'at `%s`' % short(n.ast, 40))
+        if n.kind == 'stmt' and isinstance(n.ast, (ast.Assign, ast.AugAssign, ast.AnnAssign)):
+            tg = n.ast.targets if isinstance(n.ast, ast.Assign) else [n.ast.target]
+            if any(dotted(t) in (BPOS, BLEN) for t in tg):
+                env.ghost['last'] = n.ast
+
+    def touches(n):
+        if n.kind not in ('stmt', 'test', 'iter', 'with'):
+            return False
+        for x in n.walk():
+            if isinstance(x, ast.Attribute) and isinstance(x.ctx, (ast.Store, ast.Del)) and dotted(x) in (BUF, BLEN, BPOS):
+                return True
+            if isinstance(x, ast.Call) and isinstance(x.func, ast.Attribute) and dotted(x.func.value) == 'self' and x.func.attr in rd.methods:
+                return True
+        return False
+
+    moving = {n.id for n in cfg.live_nodes() if touches(n)}
+    for start, steps, end in segments(cfg):
+        if end == cfg.xexit or not any(nid in moving for (nid, _l) in steps):
+            continue            # (a path that neither stores the fields nor calls a reader method leaves the invariant as it found it)
+        env = _start_env(rd, f, on_call, assume_inv=not (f.name == '__init__' and start == cfg.entry))
+        env.declare(CHUNK, 'nat')
+        wit = flow.describe_path(cfg, [s[0] for s in steps])
+        for e in _run_steps(env, cfg, steps, on_node):
+            if any(k == 'raise' for k, _v, _n in e.log):
+                continue
+            check(e, 'at the end of the path', wit)
+
+
+def r13_cursor_in_buffer(run):
+    v = Verdicts(run)
+    run.assume('C14 R13: a parameter named <x>_len next to <x> is len(<x>) (R1); callees preserve 0 <= _buffer_pos <= _buffer_len == len(_buffer) '
+               '(their own obligation). Decided: paths on which the bound follows from the entry invariant and the path facts (holds), and paths on which it '
+               'could only follow from the LENGTH of data read from the source on that path (violation: only the source decides it). Paths on which it '
+               'rests on a relation between parameters / results of other reader methods (a normalised size, a verified delimiter position, peek() == '
+               'delimiter) are value-level and listed under c14_r13_not_decided')
+    rd = Reader(run.project, SYNC)
+    require_attrs(run.project, SYNC, [SOURCE_FN])
+    n, skipped = 0, set()
+    for name, f in sorted(rd.methods.items()):
+        if {BUF, BLEN, BPOS} & _stores(f):
+            _r13_method(run, v, rd, f, skipped)
+            n += 1
+    if n < 4:
+        raise AnchorError('%s: fewer than 4 methods store the cursor / the buffer' % SYNC)
+    import re as _re
+    run.extra['c14_r13_not_decided'] = sorted({_re.sub(r'#\d+', '', x) for x in skipped})
+    v.flush()
+
+
 def check(run):
     run.assume('C14: only falcon/util/reader.py and falcon/asgi/reader.py are decided; falcon/cyutil/reader.pyx (the compiled twin) is not analysed')
     run.extra['twin_drift_note'] = 'falcon/cyutil/reader.pyx is a hand-maintained Cython twin of falcon/util/reader.py; not parsed, not compared'
@@ -2032,3 +2165,4 @@ def check(run):
     run.rule('R10', r10_sync_delimiter_not_split, 'sync reader: "enough is buffered" after a failed search keeps len(delimiter) - 1 bytes back', floor=1)
     run.rule('R11', r11_min_chunk, 'async reader: every chunk of the normalising source iterator but the last covers the one-chunk look-ahead of the delimiter search', floor=3)
     run.rule('R12', r12_size_cap, 'sync reader: a read with a non-negative size returns at most `size` bytes (per-method contracts)', floor=10)
+    run.rule('R13', r13_cursor_in_buffer, 'sync reader: 0 <= _buffer_pos <= _buffer_len on every acyclic path (a cursor stored after a refill is clamped to what was delivered)', floor=4)
